@@ -332,6 +332,20 @@ def check(idx: Index, rep: Report, tier: str) -> str:
                 break
         b = c.args[1]
         inst = f"{drv.fq}:convert_op@{c.lineno}"
+        if blk is None and isinstance(b, ast.Name):
+            # not in a `for op in <block>.ops` loop: an operation taken from elsewhere (a walk, an operand's owner)
+            # is emitted with a builder; if that builder sits on one fixed block the operation leaves its own block
+            defs0 = reaching_defs(dcfg, b.id, dcfg.node_of(c))
+            loopvars = set()
+            x2 = c
+            while id(x2) in pm_:
+                x2 = pm_[id(x2)]
+                if isinstance(x2, ast.For):
+                    loopvars |= {y.id for y in ast.walk(x2.target) if isinstance(y, ast.Name)}
+            fixed = bool(defs0) and all(v_ is not None and isinstance(v_, ast.Call) and unparse(v_.func) == "ir.IRBuilder" and not ({y.id for y in ast.walk(v_) if isinstance(y, ast.Name)} & loopvars) for _, v_ in defs0)
+            if fixed and loopvars:
+                r.fail(inst, Finding("C23.R4", drv.fq, f"emitted-in-other-block:{b.id}", f"`{unparse(c)}` emits operations picked from the whole function with `{b.id}` (`{unparse(defs0[0][1])}`), a builder on one fixed block: the operation is emitted outside its own block - an alloca hoisted to the entry block yields one slot for all iterations of a loop instead of a fresh one per execution", f"{CV}:{c.lineno}"))
+                continue
         if blk is None or not isinstance(b, ast.Name):
             raise AnalysisError(f"{drv.fq}: `{unparse(c)}` not inside a loop over the operations of a block / builder not a local")
         defs = reaching_defs(dcfg, b.id, dcfg.node_of(c))
